@@ -19,6 +19,11 @@ def _finish(ob, t0, bad, unknown=False):
     return ob
 
 
+def _is(it, v, name):
+    """v is the (possibly integer-typed) local `name`"""
+    return it.name_of(v) == name or (z3.is_expr(v) and str(v) == name)
+
+
 def _unsat(query, bad, msg):
     """adds msg (with the model) to bad if query is satisfiable"""
     r = M.check(query)
@@ -223,7 +228,7 @@ def c12_layout(fns, consts):
             for c in p.calls:
                 if c.callee.endswith('and_then') and len(c.args) == 2:
                     clo = c.args[1]
-                    if isinstance(clo, M.Adt) and len(clo.fields) == 3 and isinstance(clo.fields[2], M.Ref) and ot.name_of(clo.fields[2].target) == '_3' \
+                    if isinstance(clo, M.Adt) and len(clo.fields) == 3 and isinstance(clo.fields[2], M.Ref) and _is(ot, clo.fields[2].target, '_3') \
                             and ot.name_of(c.args[0]) == '_2' and (p.ret is c or p.ret is getattr(c, 'result', None)):
                         ok = True
         if not ok:
@@ -278,6 +283,11 @@ LAYOUT_PROBES = [
     ('ttb: row beyond rows-1 is diagnosed', _grid('    QLabel { QLayout.row: 2 }\n', 'flow: QGridLayout.TopToBottom; rows: 2'), ('reject', 'row is too large')),
     ('ttb: column up to 65535 accepted', _grid('    QLabel { QLayout.column: 5 }\n    QLabel {}\n', 'flow: QGridLayout.TopToBottom; rows: 2'), ('cells', [(0, 5), (1, 5)])),
     ('ttb: column 65536 diagnosed', _grid('    QLabel { QLayout.column: 65536 }\n', 'flow: QGridLayout.TopToBottom; rows: 2'), ('reject', 'column is too large')),
+    ('insert: a lower column filled after a higher one keeps both', _grid('    QLabel {}\n    QLabel { QLayout.columnStretch: 5 }\n    QLabel { QLayout.columnStretch: 3 }\n'), ('attr', 'columnstretch', '3,5')),
+    ('insert: a lower row filled after a higher one keeps both', _grid('    QLabel { QLayout.row: 2; QLayout.rowStretch: 5 }\n    QLabel { QLayout.row: 0; QLayout.column: 0; QLayout.rowStretch: 3 }\n'), ('attr_re', 'rowstretch', r'3,\d+,5')),
+    ('insert: the same value twice is accepted', _grid('    QLabel { QLayout.columnStretch: 5 }\n    QLabel {}\n    QLabel { QLayout.columnStretch: 5 }\n'), ('attr_re', 'columnstretch', r'5(,\d+)?')),
+    ('insert: a conflicting value is diagnosed', _grid('    QLabel { QLayout.columnStretch: 5 }\n    QLabel {}\n    QLabel { QLayout.columnStretch: 4 }\n'), ('reject', 'mismatched with the value previously set')),
+    ('insert: conflict after an unset lower slot was filled', _grid('    QLabel {}\n    QLabel { QLayout.columnStretch: 5 }\n    QLabel { QLayout.columnStretch: 3 }\n    QLabel { QLayout.columnStretch: 4 }\n'), ('reject', 'mismatched with the value previously set')),
     ('form: cells', 'import qmluic.QtWidgets\nQWidget {\n  QFormLayout {\n    QLabel {}\n    QLabel {}\n    QLabel { QLayout.row: 3; QLayout.column: 1 }\n  }\n}\n', ('cells', [(0, 0), (0, 1), (3, 1)])),
     ('vbox: stretch at position', 'import qmluic.QtWidgets\nQWidget {\n  QVBoxLayout {\n    QLabel {}\n    QLabel { QLayout.rowStretch: 3 }\n  }\n}\n', ('attr_at', 'stretch', 1, '3', 2)),
     ('hbox: stretch at position', 'import qmluic.QtWidgets\nQWidget {\n  QHBoxLayout {\n    QLabel {}\n    QLabel {}\n    QLabel { QLayout.columnStretch: 4 }\n  }\n}\n', ('attr_at', 'stretch', 2, '4', 3)),
@@ -304,6 +314,10 @@ def replay_layout_probes(workdir):
             if not cells:
                 cells = [(int(b), int(a)) for a, b in re.findall(r'<item[^>]*\bcolumn="(\d+)"[^>]*\brow="(\d+)"', r.ui)]
             ok, got = cells == exp[1], cells
+        elif exp[0] in ('attr', 'attr_re'):
+            m = re.search(r'\b' + exp[1] + r'="([^"]*)"', r.ui)
+            got = m.group(1) if m else None
+            ok = got is not None and (got == exp[2] if exp[0] == 'attr' else re.fullmatch(exp[2], got) is not None)
         else:
             # the value sits at the child's position (what unspecified entries default to is not C12's subject)
             m = re.search(r'\b' + exp[1] + r'="([^"]*)"', r.ui)
@@ -413,7 +427,7 @@ def c19_color(fns, consts):
             if 'parse_hex_color' in names:
                 sp = [c for c in p.calls if c.callee.endswith('strip_prefix')]
                 hx = [c for c in p.calls if c.callee.endswith('parse_hex_color')][0]
-                ok = (len(sp) == 1 and sp[0].args[1] == ('char', '#') and isinstance(r, M.Call) and r.callee.endswith('ok_or')
+                ok = (len(sp) == 1 and z3.is_int_value(sp[0].args[1]) and sp[0].args[1].as_long() == ord('#') and isinstance(r, M.Call) and r.callee.endswith('ok_or')
                       and r.args[0] is hx and isinstance(r.args[1], M.Adt) and r.args[1].path.endswith('InvalidHex')
                       and it.name_of(hx.args[0]) == sp[0].name + '@Some.0')
                 kinds.append('hex')
@@ -653,3 +667,261 @@ def merge(res, obs, cov, replay, site):
 def load():
     text = M.dump_mir()
     return M.parse_functions(text), M.parse_consts(text)
+
+
+# ================================================================================================ C12 insertion
+class ElemRef:
+    """reference to element i of the modelled Vec<Option<i32>>"""
+    def __init__(self, idx):
+        self.idx = idx
+        self.name = 'elem'
+
+
+def c12_insert(fns, consts):
+    """maybe_insert_into_opt_i32_array on a symbolic Vec<Option<i32>> (length, is_some[], value[] as SMT arrays)"""
+    ob = _ob('c12_mir_insert', 'uigen::layout::maybe_insert_into_opt_i32_array',
+             'arbitrary array contents and length, arbitrary index >= 0 and value (mathematical integers); Vec::len/resize_with/index/index_mut modelled on SMT arrays, other calls uninterpreted',
+             'after an insertion the array has length max(len, index+1) (it never shrinks), every other entry is unchanged, new slots are unset, the slot holds the value; '
+             'a conflicting value leaves the slot unchanged and pushes a diagnostic; the same value again is accepted silently; None changes nothing; no out-of-bounds access')
+    t0 = time.time()
+    bad = []
+    try:
+        fn = M.find_fn(fns, r'^maybe_insert_into_opt_i32_array$')
+        A = z3.ArraySort(z3.IntSort(), z3.BoolSort())
+        V = z3.ArraySort(z3.IntSort(), z3.IntSort())
+        len0, some0, val0 = z3.Int('len0'), z3.Const('some0', A), z3.Const('val0', V)
+        index, v1 = z3.Int('_2'), z3.Int('v1')
+        oob = []
+
+        def heap(p):
+            if not hasattr(p, 'heap') or 'len' not in p.heap:
+                p.heap = {'len': len0, 'some': some0, 'val': val0}
+            return p.heap
+
+        def model(c, it, p):
+            h = heap(p)
+            name = c.callee
+            if name.endswith('Vec::len') or name.endswith('>::len'):
+                return h['len']
+            if name.endswith('resize_with'):
+                n = c.args[1]
+                if not z3.is_expr(n):
+                    raise M.MirError('resize_with to a non-integer')
+                j = z3.Int(f'j{c.seq}')
+                # new length n: slots [old len, n) are unset; slots >= n are gone (a later growth refills them unset)
+                k = z3.Int(f'k{c.seq}')
+                ns = z3.Lambda([k], z3.And(k < h['len'], k < n, h['some'][k]))
+                h['some'], h['len'] = ns, n
+                return M.Tup([])
+            if name.endswith('::index') or name.endswith('::index_mut'):
+                i = c.args[1]
+                oob.append(z3.And(*(p.pc + [z3.Not(z3.And(i >= 0, i < h['len']))])))
+                return ElemRef(i)
+            return None
+
+        it = M.Interp(fn, consts, call_model=model, arg_values={'_2': index})
+        orig_place = it.place
+
+        def place(text, p):
+            t = text.strip()
+            m = re.fullmatch(r'\(\*(_\d+)\)', t)
+            if m and isinstance(p.env.get(m.group(1)), ElemRef):
+                return ('elem', p.env[m.group(1)].idx)
+            m = re.fullmatch(r'\(\(\(\*(_\d+)\) as Some\)\.0: i32\)', t)
+            if m and isinstance(p.env.get(m.group(1)), ElemRef):
+                return heap(p)['val'][p.env[m.group(1)].idx]
+            m = re.fullmatch(r'\(\(\(_3 as Some\)\.0: .*\)\.1: i32\)', t)
+            if m:
+                return v1
+            return orig_place(text, p)
+        it.place = place
+        orig_rvalue = it.rvalue
+
+        def rvalue(text, p):
+            t = text.strip()
+            m = re.fullmatch(r'discriminant\(\(\*(_\d+)\)\)', t)
+            if m and isinstance(p.env.get(m.group(1)), ElemRef):
+                return z3.If(heap(p)['some'][p.env[m.group(1)].idx], z3.IntVal(1), z3.IntVal(0))
+            m = re.fullmatch(r'&\(\(\(\*(_\d+)\) as Some\)\.0: i32\)', t)
+            if m and isinstance(p.env.get(m.group(1)), ElemRef):
+                return M.Ref(heap(p)['val'][p.env[m.group(1)].idx])
+            return orig_rvalue(text, p)
+        it.rvalue = rvalue
+
+        def store(place_text, value, it_, p):
+            m = re.fullmatch(r'\(\*(_\d+)\)', place_text.strip())
+            if m and isinstance(p.env.get(m.group(1)), ElemRef):
+                h = heap(p)
+                i = p.env[m.group(1)].idx
+                if isinstance(value, M.Adt) and value.path.endswith('Option::Some'):
+                    h['some'] = z3.Store(h['some'], i, True)
+                    h['val'] = z3.Store(h['val'], i, value.fields[0])
+                elif isinstance(value, M.Adt) and value.path.endswith('Option::None'):
+                    h['some'] = z3.Store(h['some'], i, False)
+                else:
+                    raise M.MirError(f'store of {value!r} into the array')
+        it.store_model = store
+        paths = [p for p in it.run() if p.end == 'return']
+        disc = it.leaf('_3.discr', 'isize')
+        pre = [len0 >= 0, index >= 0]
+        j = z3.Int('j')
+        for q in oob:
+            _unsat(pre + [q], bad, 'array access outside its bounds (panic)')
+        for p in paths:
+            h = heap(p)
+            pc = pre + p.pc
+            pushed = any(c.callee.endswith('Diagnostics::push') for c in p.calls)
+            s = z3.Solver()
+            s.add(*pc)
+            if s.check(disc == 0) == z3.sat and s.check(disc == 1) != z3.sat:
+                # value == None: nothing changes, nothing is reported
+                _unsat(pc + [z3.Or(h['len'] != len0, z3.And(j >= 0, j < len0, z3.Or(h['some'][j] != some0[j], z3.And(some0[j], h['val'][j] != val0[j]))))], bad, 'None changes the array')
+                if pushed:
+                    bad.append('None pushes a diagnostic')
+                continue
+            want_len = z3.If(index + 1 > len0, index + 1, len0)
+            _unsat(pc + [h['len'] != want_len], bad, 'array length after insertion is not max(len, index+1): existing entries are dropped or the array does not grow')
+            _unsat(pc + [j >= 0, j < len0, j != index, j < h['len'], z3.Or(h['some'][j] != some0[j], z3.And(some0[j], h['val'][j] != val0[j]))], bad, 'another entry is changed by the insertion')
+            _unsat(pc + [j >= len0, j < h['len'], j != index, h['some'][j]], bad, 'a new slot is not unset')
+            conflict = z3.And(index < len0, some0[index], val0[index] != v1)
+            if pushed:
+                _unsat(pc + [z3.Not(conflict)], bad, 'a diagnostic is pushed although the slot was unset or held the same value')
+                _unsat(pc + [z3.Or(z3.Not(h['some'][index]), h['val'][index] != val0[index])], bad, 'a conflicting value overwrites the slot')
+            else:
+                _unsat(pc + [conflict], bad, 'a conflicting value is not diagnosed')
+                _unsat(pc + [z3.Or(z3.Not(h['some'][index]), h['val'][index] != v1)], bad, 'the slot does not hold the value after the insertion')
+        ob['detail'] = f'{len(paths)} returning paths, {len(oob)} array accesses'
+    except M.MirError as e:
+        return [_finish(ob, t0, [f'MIR not interpretable: {e}'], unknown=True)]
+    # de-duplicate messages
+    seen, uniq = set(), []
+    for b in bad:
+        k = b.split('  [model')[0]
+        if k not in seen:
+            seen.add(k)
+            uniq.append(b)
+    return [_finish(ob, t0, uniq, unknown=any(b.startswith('UNKNOWN') for b in uniq))]
+
+
+# ================================================================================================ C03 literals
+def c03_literals(fns, consts):
+    """number-literal decoding plumbing (the digit accumulation itself is std's from_str_radix / str::parse)"""
+    ob = _ob('c03_mir_number_literal', 'qmlast::astutil::parse_number_str, parse_integer_str_radix (+ closures)',
+             'every character (z3 integer code point) for the separator filter; all paths of the three functions with std calls uninterpreted',
+             'prefixed literals are parsed in the radix strip_radix_prefix selected, on the stripped tail; literals containing e or . are parsed as f64; others in radix 10; '
+             "the digit-separator fallback removes exactly the '_' characters and parses the rest in the SAME radix; the parsed number is returned unchanged")
+    t0 = time.time()
+    bad = []
+    try:
+        # L1: the separator filter
+        f = M.find_fn(fns, r'^parse_integer_str_radix::\{closure#0\}::\{closure#0\}$')
+        it = M.Interp(f, consts)
+        ps = [p for p in it.run() if p.end == 'return']
+        c = it.leaf('_2.*', 'char')
+        if len(ps) != 1 or not z3.is_bool(ps[0].ret):
+            bad.append('separator filter is not a single boolean expression of the character')
+        else:
+            _unsat([c >= 0, c <= 0x10FFFF, ps[0].ret != (c != ord('_'))], bad, "the separator filter does not keep exactly the characters other than '_'")
+            if ps[0].calls:
+                bad.append('separator filter calls ' + ps[0].calls[0].callee)
+        # L2: the fallback closure
+        f = M.find_fn(fns, r'^parse_integer_str_radix::\{closure#0\}$')
+        it = M.Interp(f, consts)
+        ps = [p for p in it.run() if p.end == 'return']
+        if len(ps) != 1:
+            bad.append(f'fallback closure has {len(ps)} paths')
+        else:
+            names = [c.callee.split('::')[-1] for c in ps[0].calls]
+            if names != ['chars', 'filter', 'collect', 'deref', 'from_str_radix']:
+                bad.append(f'fallback closure calls {names}, expected chars -> filter -> collect -> deref -> from_str_radix')
+            else:
+                ch, fi, co, de, fr = ps[0].calls
+                radix = it.leaf('_1.1.*', 'u32')
+                ok = (it.name_of(ch.args[0]) == '_1.0' and fi.args[0] is ch and co.args[0] is fi and isinstance(de.args[0], M.Ref) and de.args[0].target is co
+                      and fr.args[0] is de and z3.is_expr(fr.args[1]) and ps[0].ret is fr)
+                if not ok:
+                    bad.append('fallback closure does not parse the filtered copy of the captured string')
+                elif M.check([fr.args[1] != radix]) != 'unsat':
+                    bad.append('fallback parses the cleaned string in another radix')
+        # L3: parse_integer_str_radix
+        f = M.find_fn(fns, r'^parse_integer_str_radix$')
+        it = M.Interp(f, consts)
+        ps = [p for p in it.run() if p.end == 'return']
+        if len(ps) != 1:
+            bad.append(f'parse_integer_str_radix has {len(ps)} paths')
+        else:
+            names = [c.callee.split('::')[-1] for c in ps[0].calls]
+            if names != ['from_str_radix', 'or_else', 'ok', 'map']:
+                bad.append(f'parse_integer_str_radix calls {names}')
+            else:
+                fr, oe, okc, mp = ps[0].calls
+                clo = oe.args[1]
+                ok = (it.name_of(fr.args[0]) == '_1' and _is(it, fr.args[1], '_2') and oe.args[0] is fr and isinstance(clo, M.Adt) and len(clo.fields) == 2
+                      and it.name_of(clo.fields[0]) == '_1' and isinstance(clo.fields[1], M.Ref) and _is(it, clo.fields[1].target, '_2')
+                      and okc.args[0] is oe and mp.args[0] is okc and 'Number::Integer' in repr(mp.args[1]) and ps[0].ret is mp)
+                if not ok:
+                    bad.append('parse_integer_str_radix is not from_str_radix(s, radix).or_else(fallback{s, &radix}).ok().map(Integer)')
+        # L4: parse_number_str
+        f = M.find_fn(fns, r'^parse_number_str$')
+        it = M.Interp(f, consts)
+        kinds = []
+        for p in [p for p in it.run() if p.end == 'return']:
+            names = [c.callee.split('::')[-1] for c in p.calls]
+            if names == ['strip_radix_prefix', 'parse_integer_str_radix']:
+                sp, pi = p.calls
+                kinds.append('prefixed')
+                if not (it.name_of(sp.args[0]) == '_1' and it.name_of(pi.args[0]) == sp.name + '@Some.0.1' and it.name_of(pi.args[1]) is None and
+                        z3.is_expr(pi.args[1]) and str(pi.args[1]) == sp.name + '@Some.0.0' and p.ret is pi):
+                    bad.append('prefixed literal: not parse_integer_str_radix(tail, radix) of strip_radix_prefix(s)')
+            elif names == ['strip_radix_prefix', 'contains', 'parse', 'ok', 'map']:
+                kinds.append('float')
+                sp, cn, pa, okc, mp = p.calls
+                pat = cn.args[1]
+                chars = sorted(a.as_long() for a in pat.items) if isinstance(pat, M.Tup) and all(z3.is_int_value(a) for a in pat.items) else None
+                if not (it.name_of(cn.args[0]) == '_1' and chars == sorted([ord('e'), ord('.')]) and it.name_of(pa.args[0]) == '_1' and 'parse::<f64>' in pa.raw
+                        and okc.args[0] is pa and mp.args[0] is okc and 'Number::Float' in repr(mp.args[1]) and p.ret is mp):
+                    bad.append("float literal: not `s.contains(['e','.'])` -> s.parse::<f64>().ok().map(Float)")
+            elif names == ['strip_radix_prefix', 'contains', 'parse_integer_str_radix']:
+                kinds.append('decimal')
+                pi = p.calls[2]
+                if not (it.name_of(pi.args[0]) == '_1' and z3.is_int_value(pi.args[1]) and pi.args[1].as_long() == 10 and p.ret is pi):
+                    bad.append('decimal literal: not parse_integer_str_radix(s, 10)')
+            else:
+                bad.append(f'unexpected path {names}')
+        if sorted(kinds) != ['decimal', 'float', 'prefixed']:
+            bad.append(f'paths of parse_number_str: {sorted(kinds)}')
+        ob['detail'] = f'paths: {sorted(kinds)}'
+    except M.MirError as e:
+        return [_finish(ob, t0, [f'MIR not interpretable: {e}'], unknown=True)]
+    return [_finish(ob, t0, bad, unknown=any(b.startswith('UNKNOWN') for b in bad))]
+
+
+def replay_literals(workdir):
+    """CLI replay: literal spellings with their ECMAScript values, read back from the .ui"""
+    import os
+    from ..tv import driver as D
+    os.makedirs(workdir, exist_ok=True)
+    q = C.build_native()
+    ints = [('0xff_00', 65280), ('0x1_f', 31), ('0Xdead', 57005), ('0xa_0 + 1', 161), ('1_000', 1000), ('65_280', 65280), ('0b1111_0000', 240), ('0B101', 5), ('0o7_7', 63), ('0O17', 15),
+            ('017', 15), ('08', 8), ('0', 0), ('00', 0), ('0x_f', None) if False else ('0xF', 15), ('12ab', None), ('0b12', None), ('0o8', None)]
+    floats = [('1e3', 1000.0), ('0.5', 0.5), ('.5e1', 5.0), ('1.5e-1', 0.15), ('2.', 2.0), ('0e-1', 0.0)]
+    failed = []
+    for i, (e, want) in enumerate(ints + floats):
+        isf = (e, want) in floats
+        cls = 'QDoubleSpinBox' if isf else 'QSpinBox'
+        text = f'import qmluic.QtWidgets\nQWidget {{\n  {cls} {{ maximum: {e} }}\n}}\n'
+        r = D.run_cli(q, workdir, text, f'Lit{i}')
+        if want is None:
+            if r.rc == 0:
+                failed.append({'literal': e, 'expected': 'rejected', 'actual': 'accepted'})
+            continue
+        if r.ui is None:
+            failed.append({'literal': e, 'expected': want, 'actual': 'rejected: ' + r.stderr.strip()[:100]})
+            continue
+        m = re.search(r'<property name="maximum">\s*<\w+>([^<]*)<', r.ui)
+        got = float(m.group(1)) if m else None
+        if got != float(want):
+            failed.append({'literal': e, 'expected': want, 'actual': got})
+    with open(os.path.join(workdir, 'README.txt'), 'w') as f:
+        f.write('qmluic generate-ui Lit<i>.qml; failed: %s\n' % failed)
+    return bool(failed), {'failed_probes': failed}
